@@ -377,6 +377,50 @@ func main() {
 				}
 			}
 		}
+		// a completion with a failure that carries no error (the zero value of Try, Failure(nil)) is a
+		// completion like any other: every observer sees the same Try
+		r.Seq("nil-error-failure", func(x *mc.X) {
+			p := fp.NewPromise[int]()
+			view := func(t fp.Try[int]) string {
+				return fmt.Sprintf("success=%v error-present=%v", t.IsSuccess(), t.Failed().IsSuccess())
+			}
+			var seen []string
+			reg := func(name string) {
+				p.Future().OnComplete(func(t fp.Try[int]) { seen = append(seen, name+": "+view(t)) }, syncExec{})
+			}
+			nBefore := x.Choose(3, "callbacks before")
+			for i := 0; i < nBefore; i++ {
+				reg(fmt.Sprintf("before%d", i))
+			}
+			var ok bool
+			how := x.Choose(3, "completion")
+			switch how {
+			case 0:
+				ok = p.Complete(fp.Try[int]{})
+			case 1:
+				ok = p.Complete(fp.Failure[int](nil))
+			case 2:
+				ok = p.Failure(nil)
+			}
+			if !ok {
+				x.Fail("nil-error-failure/not-completed", "the first completion attempt returned false")
+			}
+			reg("after")
+			if !p.IsCompleted() {
+				x.Fail("nil-error-failure/not-completed", "IsCompleted() is false after the completion")
+			}
+			want := view(p.Value())
+			if len(seen) != nBefore+1 {
+				x.Fail("nil-error-failure/callback-count", "%d callbacks ran, %d were registered: %v", len(seen), nBefore+1, seen)
+			}
+			for _, s := range seen {
+				if !strings.HasSuffix(s, ": "+want) {
+					x.Fail("nil-error-failure/observers-disagree", "Value() shows [%s] but a callback saw [%s] (all: %v)", want, s, seen)
+				}
+			}
+			x.Observe(nBefore, how, want)
+			x.NonTrivial()
+		})
 		r.Seq("zero-value", func(x *mc.X) {
 			var p fp.Promise[int]
 			var f fp.Future[int]
